@@ -73,7 +73,7 @@ POOL = [
     # a repeated hashtag next to different ones (a set-based de-duplication would order labels by string hash)
     {"text": "#bb call #aa tomorrow 5pm #bb #cc #dd", "ts": TS1, "kw": {}},
     # weekday + day of month (rrule search), twice with different values; a range that fires the rule the shipped vocabulary does not know
-    {"text": "sunday 31st 10:00", "ts": TS1, "kw": {}},
+    {"text": "sunday 31st", "ts": TS1, "kw": {}},
     {"text": "friday 13th", "ts": TS1, "kw": {}},
     {"text": "12.12.2022 to 14.12.2022 for 2 days", "ts": TS1, "kw": {}},
     {"text": "12.12.2022 to 14.12.2022 for 2 days", "ts": TS1, "kw": {"scorer": "nb"}},
@@ -462,13 +462,26 @@ def run_case(case):
             last = [F.shallow_digest()]
             pts = []
 
-            def cb(me, k, last=last, pts=pts):
-                d = F.shallow_digest()
+            lastfull = [F.shallow_digest(), 0]
+            last[0] = F.shallow_digest(fast=True)
+
+            def cb(me, k, last=last, pts=pts, lastfull=lastfull):
+                d = F.shallow_digest(fast=True)
                 if d != last[0]:
                     last[0] = d
                     pts.append(k)
+                elif k - lastfull[1] >= 64:
+                    # the full digest (identity of every bound object) every 64 points
+                    lastfull[1] = k
+                    df = F.shallow_digest()
+                    if df != lastfull[0]:
+                        lastfull[0] = df
+                        pts.append(k)
 
-            sched.run([bodies[who]], prefix, "line", on_point=cb)
+            try:
+                sched.run([bodies[who]], prefix, "line", on_point=cb, horizon_s=240.0)
+            except sched.Deadlock:
+                return {"o": "wscan:cap", "skip": "profiling run exceeded the horizon", "nt": False, "st": {"wscan_capped": 1}}
             writes.append(pts)
         n_sched = 0
         capped = False
